@@ -610,7 +610,24 @@ func (fr *Frame) logCall(st, pre *State, key, recv string, args []Val, res []Val
 			strs = append(strs, r.Term)
 		}
 	}
-	vc.logEffect(st, key, recv, strs, errT)
+	// the first argument that is neither a string nor a byte slice is recorded as the event's payload (evArg)
+	payload := ""
+	for _, a := range args {
+		if a.T == nil || a.Re != nil || a.Clo != nil || isString(a.T) {
+			continue
+		}
+		srt := vc.S.Sort(a.T)
+		if srt == "Slice_Int" {
+			continue
+		}
+		if _, isPtr := a.T.Underlying().(*types.Pointer); isPtr {
+			continue
+		}
+		box, _ := vc.evBox(srt)
+		payload = fmt.Sprintf("(%s %s)", box, vc.term(pre, a))
+		break
+	}
+	vc.logEffect(st, key, recv, strs, errT, payload)
 }
 
 // ---------------------------------------------------------------- builtins
